@@ -42,6 +42,7 @@ struct BatchOut {
     determinism_mismatch: u64,
     pilots: u64,
     minimise_candidates: u64,
+    foreign_profile_bases: u64,
 }
 
 #[derive(Serialize, Deserialize, Clone)]
@@ -144,9 +145,23 @@ fn run_batch(prop: &str, seed: u64, start: u64, count: u64, replay_dir: &str, pr
             let line = format!("{:>20} {:>20}\n", idx, run_seed);
             let _ = f.write_at(line.as_bytes(), 0);
         }
-        let base = gen::generate(prop, run_seed);
+        // every sixth run index borrows the scenario generator of another property (cycling through
+        // all of them) and is still judged for this property: monitors are on in every run, and
+        // shapes, fault kinds and histories that only another profile produces count as well
+        const ALL_PROFILES: [&str; 15] = ["C01", "C02", "C03", "C04", "C05", "C06", "C07", "C08", "C09", "C10", "C11", "C12", "C13", "C16", "C17"];
+        let gen_prop: &str = if idx % 6 == 5 {
+            let others: Vec<&str> = ALL_PROFILES.iter().copied().filter(|p| *p != prop).collect();
+            others[((idx / 6) as usize) % others.len()]
+        } else {
+            prop
+        };
+        let foreign = gen_prop != prop;
+        if foreign {
+            out.foreign_profile_bases += 1;
+        }
+        let base = gen::generate(gen_prop, run_seed);
         // fault enumeration: positions are swept inside each sampled scenario
-        let variants: Vec<Scenario> = match prop {
+        let mut variants: Vec<Scenario> = match gen_prop {
             "C12" => {
                 let pilot = interp::run_scenario(&base);
                 out.pilots += 1;
@@ -165,6 +180,9 @@ fn run_batch(prop: &str, seed: u64, start: u64, count: u64, replay_dir: &str, pr
             }
             _ => vec![base],
         };
+        if foreign {
+            variants.truncate(4);
+        }
         for (vi, scn) in variants.into_iter().enumerate() {
             let (fp, steps) = process_run(prop, seed, idx, vi as u64, run_seed, &scn, &mut out, &mut fps, replay_dir, max_viol);
             if let Some(f) = dumpf.as_mut() {
